@@ -175,6 +175,21 @@ impl TypeInfo for Top {
     }
 }
 
+/// A primitive definition that carries a path, a type parameter and docs (a U256-style newtype described by hand).
+pub struct NamedPrim;
+impl TypeInfo for NamedPrim {
+    type Identity = Self;
+    fn type_info() -> Type {
+        bump("NamedPrim");
+        Type::new(
+            Path::new("NamedPrim", M),
+            vec![TypeParameter::new("Unit", Some(MetaType::new::<OnlyAsParam>())), TypeParameter::new("Skipped", None)],
+            scale_info::TypeDefPrimitive::U256,
+            vec!["a 256-bit amount"],
+        )
+    }
+}
+
 /// Same path and shape as `Shared` but a different Rust type: must never merge with it.
 pub struct SharedTwin;
 impl TypeInfo for SharedTwin {
@@ -194,6 +209,7 @@ impl TypeInfo for SharedAlias {
     }
 }
 
-pub const INSTRUMENTED: [&str; 16] = [
+pub const INSTRUMENTED: [&str; 17] = [
+    "NamedPrim",
     "SelfRec", "MutA", "MutB", "Cyc1", "Cyc2", "Cyc3", "OnlyAsParam", "ParamOnly", "PCycA", "PCycB", "Shared", "Left", "Right", "Top", "SharedTwin", "SharedAlias",
 ];
